@@ -66,6 +66,12 @@ def gen(rng, tier):
                                 {"op": "down"}, {"op": "mode", "m": "read"}, {"op": "up"}],
                       "start_up": False, "keepsafe_ms": 0, "connbuf": nl + 1000, "iobuf": rng.choice([1024, 4096]), "spoolbuf": 20000, "pace_us": 0,
                       "file_bytes": 1000000, "spool_sleep_us": 10, "size": 400})
+        # the same with a short keepSafe period P = 2 s: the lines are written 0.4 P after the connection came up and the reset comes
+        # at 1.1 P, when they are about 0.65 P old — well within the period keepSafe promises to retain
+        cases.append({"steps": [{"op": "mode", "m": "blackhole"}, {"op": "up"}, {"op": "wait_online"}, {"op": "sleep", "n": 800}, S(6000),
+                                {"op": "sleep", "n": 1250}, {"op": "down"}, {"op": "mode", "m": "read"}, {"op": "up"}],
+                      "start_up": False, "keepsafe_ms": 2000, "connbuf": 7000, "iobuf": 4096, "spoolbuf": 20000, "pace_us": 0,
+                      "file_bytes": 1000000, "spool_sleep_us": 10, "size": 400})
         for start_up, steps in scheds:
             cases.append({"steps": steps, "start_up": start_up, "spool_sleep_us": rng.choice([10, 10, 500]), "keepsafe_ms": rng.choice([0, 300]), "connbuf": rng.choice([10, 100, 1000]),
                           "iobuf": rng.choice([4096, 65536]), "spoolbuf": rng.choice([100, 10000]), "pace_us": rng.choice([50, 100, 100, 0]),
